@@ -32,25 +32,25 @@ TEXT = {
         "note": "Programs = the enumerated workloads; the configuration axis itself is covered completely.",
     },
     "C16": {
-        "engine": "rrtk-mc c16-nary-scratch + c16-terminal-read-scratch + c16-axle-constructor + c16-terminal-ops-scratch; driver/c16_lifetime.py (compiler probes); thorough: c16_miri.py",
+        "engine": "rrtk-mc c16-nary-scratch + c16-terminal-read-scratch + c16-axle-constructor + c16-terminal-ops-scratch; driver/c16_lifetime.py (compiler probes); driver/c16_bare.py + harness/bare_c16 (bare configuration); thorough: c16_miri.py",
         "technique": "exhaustive enumeration of all absent/present patterns (2^N, N<=8, plus an error at every position), terminal presence combinations, all 12^5 (thorough 12^6) connect/disconnect/set_state sequences on 3 terminals, and axle sizes 0..8 with poisoned scratch arrays (hook rrtk_verif); bounded enumeration of a generated family of safe probe programs with rustc's borrow checker as oracle; thorough: the same cases and the accepted probes under Miri",
         "text": "Scratch-slot clause: every pattern for arities 1..8 of sum/product/newest-of, the terminal read and Axle::new "
                 "are executed with the MaybeUninit arrays filled with 0x7F so that any use of an unwritten slot changes the "
                 "result by 3e38 / the timestamp by 9e18; out-of-range terminal indices must panic; after every step of every terminal operation sequence each state read must be explainable by written states. Lifetime clause: 77 generated "
                 "safe programs (11 accessors x drop/move/drop-with-partner x read/write, raw-pointer API probes, controls): "
                 "the compiler accepting one is a violation. 24 known findings (F4: 11 accessors x {drop, move}; F6: "
-                "Borrow::Ptr / BorrowMut::Ptr constructible in safe code).",
+                "Borrow::Ptr / BorrowMut::Ptr constructible in safe code). Plus the same scratch-slot cases in rrtk's bare configuration (--no-default-features: neither std nor alloc; raw-pointer References), each read three times behind differently dirtied stack memory, natively with the poison hook and (thorough) under Miri.",
         "note": "'No safe program' is decided for the generated family only; controls make sure a rejection is a borrow-checker "
                 "rejection and an acceptance is not a vacuous probe.",
     },
     "C17": {
-        "engine": "rrtk-mc c17-aliasing-seqs; driver/c17_extra.py: downstream crate x 4 feature sets; harness/sched (shuttle DFS)",
+        "engine": "rrtk-mc c17-aliasing-seqs + c17-to_dyn-argument-forms; driver/c17_extra.py: downstream crate x 4 feature sets; harness/sched (shuttle DFS)",
         "technique": "exhaustive controlled-scheduler exploration (shuttle check_dfs, unbounded) of 2-4 thread harnesses on the real reference.rs; stateless bounded-exhaustive operation sequences (15^5 quick / 15^7 thorough x 6 variants, and one step shorter on 64- and 4096-aligned targets) against a one-cell model; configuration enumeration of the caller's feature sets for to_dyn!",
         "text": "Threads: every interleaving at every Mutex/RwLock operation and yield of 2x1, 2x2, 3x1 increments and 2x1+reader "
                 "(thorough adds 2x3 complete and 3x2, 4x1, 2x2+reader up to a 2e7-schedule cap) for the four lock-backed "
                 "variants: no lost update, no deadlock, no panic. Sequential: all clone/to_dyn/read/write/drop sequences on "
                 "3 handle slots for all six variants against a single-cell + handle-count model incl. the drop flag, on 8-, 64- and 4096-aligned targets (a memory-fault death of the exploring process is localised by a one-at-a-time re-run and reported with the sequence). "
-                "to_dyn! from a downstream crate with and without features named alloc/std.",
+                "to_dyn! from a downstream crate with and without features named alloc/std. to_dyn! argument forms: 8 argument expression forms (variable, clone(), Option::take().unwrap(), Vec::pop().unwrap(), Iterator::next().unwrap(), mem::replace, a block with a side effect, a call building a fresh target) x listed variants x 3 layouts: the argument is evaluated exactly once and the result aliases the object that evaluation denotes.",
         "note": "shuttle intercepts the lock operations reference.rs performs because the file is compiled against shuttle::sync; "
                 "Arc itself has no scheduling points, which is fine because the property is about the locks.",
     },
@@ -87,7 +87,7 @@ TEXT = {
         "text": "For every grid profile the constructor accepts, all six accessors are read at ~25 instants including i64 "
                 "extremes and each phase boundary -1/0/+1 ns and must describe the same instant (exact relations, no "
                 "numeric tolerance); 0<=t1<=t2<=t3; end command = lowest non-zero derivative of the end state forever "
-                "after completion. Plus dense sweeps of the continuous parameters over a ratio grid (2^(1/16) steps, thorough 2^(1/32), plus 1 +- 2^-k).",
+                "after completion. Plus dense sweeps of the continuous parameters over a ratio grid (2^(1/16) steps, thorough 2^(1/32), plus 1 +- 2^-k). Plus the acceptance frontier located on the code under test: for ~1000 move shapes the end position is bisected over the f32 number line down to an adjacent rejected/accepted pair of floats, and the 24 floats from the first accepted one onward are constructed and judged.",
         "note": "The property is relational, so no numeric model is needed; coverage of the input space is the grid.",
     },
     "C07": {
@@ -96,7 +96,7 @@ TEXT = {
         "text": "Acceleration values exact; velocity and position within a derived tolerance of the piecewise-quadratic "
                 "reference at t=0, boundaries +-1 ns and 33 equally spaced instants (continuity, integral relation, "
                 "velocity bound); reference end point = goal; mirrored inputs give identical boundaries and negated "
-                "outputs; comfortably feasible moves are accepted. One known finding (zero displacement, F5). Plus dense sweeps of the continuous parameters over a ratio grid (2^(1/16) steps, thorough 2^(1/32), plus 1 +- 2^-k).",
+                "outputs; comfortably feasible moves are accepted. One known finding (zero displacement, F5). Plus dense sweeps of the continuous parameters over a ratio grid (2^(1/16) steps, thorough 2^(1/32), plus 1 +- 2^-k). Plus the located acceptance frontier of C06 (adjacent rejected/accepted floats and the 24 next accepted ones per shape).",
         "note": "Tolerance clause is the property's own; a wrong coefficient produces errors 1e5 x the tolerance.",
     },
     "C20": {
@@ -116,7 +116,7 @@ TEXT = {
                 "and Differential (4 trust modes): every subset of terminals wired to external terminals, every sequence of "
                 "3 (4) rounds for 2-terminal and 2 (3) for 3-terminal devices; after each update the own slots must equal the "
                 "projection of the pre-update reads, stamped with the newest contributing time; uninformed slots and "
-                "external slots bit-identical. Plus periodic histories (every primitive word of up to 2-4 symbols (per engine, see evidence bounds) over the core alphabet repeated to 16-64 events, with at most one deviation) and long runs on both sides of 2^8 and 2^9 events. Plus dense sweeps of the continuous parameters over a ratio grid (2^(1/16) steps, thorough 2^(1/32), plus 1 +- 2^-k). Plus twin / bystander runs: a second live object of the same kind used alternately must not change anything.",
+                "external slots bit-identical. Plus periodic histories (every primitive word of up to 2-4 symbols (per engine, see evidence bounds) over the core alphabet repeated to 16-64 events, with at most one deviation) and long runs on both sides of 2^8 and 2^9 events. Plus dense sweeps of the continuous parameters over a ratio grid (2^(1/16) steps, thorough 2^(1/32), plus 1 +- 2^-k). Plus twin / bystander runs: a second live object of the same kind used alternately must not change anything. Plus 24 cross-kind environments: the same round sequences (depth 2 / 1) with commands present at terminal 0 / the last / all terminals, stamped far newer / older / at the round's shared time / newer than the round, written once or before every round - states and their timestamps must not depend on them.",
         "note": "Two state triples, five timing options per terminal and round (newest, tie, stale; negative and positive times).",
     },
     "C13": {
@@ -125,7 +125,7 @@ TEXT = {
         "text": "Same harness as C08 with commands: after each update every device terminal and connected external terminal "
                 "must read a newest issued command with issuer's time and kind, value mapped by the path; differential "
                 "leaves command slots bit-identical. Chains: all 4^1..4^4 (4^5) device sequences x all 2^6 (2^8) "
-                "issuing-end sequences, ends and every intermediate terminal checked exactly. Plus periodic histories (every primitive word of up to 2-4 symbols (per engine, see evidence bounds) over the core alphabet repeated to 16-64 events, with at most one deviation) and long runs on both sides of 2^8 and 2^9 events. Plus dense sweeps of the continuous parameters over a ratio grid (2^(1/16) steps, thorough 2^(1/32), plus 1 +- 2^-k). Plus twin / bystander runs: a second live object of the same kind used alternately must not change anything.",
+                "issuing-end sequences, ends and every intermediate terminal checked exactly. Plus periodic histories (every primitive word of up to 2-4 symbols (per engine, see evidence bounds) over the core alphabet repeated to 16-64 events, with at most one deviation) and long runs on both sides of 2^8 and 2^9 events. Plus dense sweeps of the continuous parameters over a ratio grid (2^(1/16) steps, thorough 2^(1/32), plus 1 +- 2^-k). Plus twin / bystander runs: a second live object of the same kind used alternately must not change anything. Plus 24 cross-kind environments: the same round sequences (depth 2 / 1) with states present at terminal 0 / the last / all terminals, stamped far newer / older / at the round's shared time / newer than the round, written once or before every round - the relayed command, its kind and timestamp must not depend on them.",
         "note": "Two commands of different kinds; chain ratios are powers of two so the product is exact.",
     },
     "C15": {
@@ -140,12 +140,12 @@ TEXT = {
         "note": "Two values, four clock steps (incl. negative and 1e12), two deltas, two set_time targets.",
     },
     "C12": {
-        "engine": "rrtk-mc c12-seqs + c12-deviations + c12-periodic",
+        "engine": "rrtk-mc c12-seqs + c12-deviations + c12-periodic + c12-ratio-sweeps + c12-interleaved-twins + c12-window-fill + c12-input-wirings",
         "technique": "stateless bounded-exhaustive exploration of event histories (all 14^d histories incl. repeated timestamps and 1 ns steps, deviation-bounded long histories) on the real EWMA and moving-average streams (f32 and Quantity variants in lockstep) against a weighted-average reference model",
         "text": "Every history to depth 5 (6) over {P(dt,v): dt in {0,1ns,0.5s,3s}} + {N,E1} x windows {1ns,0.5s,2s,1h} and "
                 "smoothing {0,.25,.5,1}, plus 24/2 (64/3) long histories: no update panics; moving average equals the "
                 "time-weighted mean of the window (weights >=0, sum = window, asserted in the reference); EWMA equals "
-                "prev*(1-L)+new*L; convexity; first sample; absent ignored; variants agree. Plus periodic histories (every primitive word of up to 2-4 symbols (per engine, see evidence bounds) over the core alphabet repeated to 16-64 events, with at most one deviation) and long runs on both sides of 2^8 and 2^9 events. Plus dense sweeps of the continuous parameters over a ratio grid (2^(1/16) steps, thorough 2^(1/32), plus 1 +- 2^-k). Plus twin / bystander runs: a second live object of the same kind used alternately must not change anything. Plus input-wiring variants (raw pointer, dyn Getter, Arc<Mutex>, Arc<RwLock> References; followed command) whose traces must equal the default wiring's bit for bit.",
+                "prev*(1-L)+new*L; convexity; first sample; absent ignored; variants agree. Plus periodic histories (every primitive word of up to 2-4 symbols (per engine, see evidence bounds) over the core alphabet repeated to 16-64 events, with at most one deviation) and long runs on both sides of 2^8 and 2^9 events. Plus dense sweeps of the continuous parameters over a ratio grid (2^(1/16) steps, thorough 2^(1/32), plus 1 +- 2^-k). Plus twin / bystander runs: a second live object of the same kind used alternately must not change anything. Plus input-wiring variants (raw pointer, dyn Getter, Arc<Mutex>, Arc<RwLock> References; followed command) whose traces must equal the default wiring's bit for bit. Plus window-fill histories: moving-average windows holding W in {2..65} (thorough ..100) samples of the default rhythm, 2W+8 events with one (thorough: two for W<=34) irregular event (N, E1, +0, +1 ns, +0.2 s, +1.3 s, +3 s) at every position, so that the window fills, the irregularity travels through it and several unevenly spaced samples leave it in one update.",
         "note": "Windows, smoothing constants, values and steps from fixed alphabets; decreasing timestamps are outside the property.",
     },
     "C10": {
@@ -196,30 +196,30 @@ TEXT = {
         "text": "All 225 ordered pairs of a 15-value alphabet (MIN, MIN+1, +-1.5e9(+7), -2..2, 2^53(+1), MAX-1, MAX) for each of the 34 Datum operator impls (85 "
                 "payload instantiations, table checked against the source), the selection helpers incl. empty cases, "
                 "the C02 enumeration with the timestamp oracle only (two-input combinators on all 225 pairs), terminal reads and "
-                "device updates with all weak timestamp orders, each also realised with timestamps further apart than i64::MAX.",
+                "device updates with all weak timestamp orders, each also realised with timestamps further apart than i64::MAX. The device engines also run under the 24 cross-kind environments (states present while command timestamps are judged and vice versa).",
         "note": "A max-of-timestamps rule depends only on the order relation of its operands, which the alphabet covers "
                 "completely for pairs; payload values fixed.",
     },
     "C05": {
-        "engine": "rrtk-mc c05-seqs + c05-deviations + c05-freeze + c05-periodic + c05-freeze-periodic",
+        "engine": "rrtk-mc c05-seqs + c05-repeated-timestamps + c05-deviations + c05-freeze + c05-periodic + c05-freeze-periodic",
         "technique": "stateless bounded-exhaustive exploration of event histories on the real streams (all 5^d histories, d=8 quick / 10 thorough, plus all H-event histories within k deviations of the default stream) with differential oracles against fresh real streams",
         "text": "For each of 15 stateful stream variants every history over {P,P',N,E1,E2} up to the depth bound, and every "
                 "24/2 (48/3) deviation-bounded long history, is executed on a freshly built real stream; after every "
                 "event: no stale error, reset == fresh stream fed the suffix (bit equality), deleting ignored absent "
                 "events changes nothing, get() pure (input poisoned between calls; lazy-get run). Freeze: all 16^d "
                 "condition x input histories against the reference machine. Small-scope complete: the streams keep at "
-                "most three samples of memory, so depth 8 exceeds every distinct internal stage. Plus periodic histories (every primitive word of up to 2-4 symbols (per engine, see evidence bounds) over the core alphabet repeated to 16-64 events, with at most one deviation) and long runs on both sides of 2^8 and 2^9 events. Plus twin / bystander runs: a second live object of the same kind used alternately must not change anything. Plus input-wiring variants (raw pointer, dyn Getter, Arc<Mutex>, Arc<RwLock> References; followed command) whose traces must equal the default wiring's bit for bit.",
+                "most three samples of memory, so depth 8 exceeds every distinct internal stage. Plus periodic histories (every primitive word of up to 2-4 symbols (per engine, see evidence bounds) over the core alphabet repeated to 16-64 events, with at most one deviation) and long runs on both sides of 2^8 and 2^9 events. Plus twin / bystander runs: a second live object of the same kind used alternately must not change anything. Plus input-wiring variants (raw pointer, dyn Getter, Arc<Mutex>, Arc<RwLock> References; followed command) whose traces must equal the default wiring's bit for bit. Plus, for the six filters (which accept repeated timestamps), all 5^6 (5^8) histories under three more clocks (every timestamp used twice / three times, clock standing still), so that errors and resets are followed by samples carrying an earlier sample's timestamp.",
         "note": "Trusted: harness reset-policy table, scripted inputs. Values from a two-element alphabet, clock +1 s "
                 "per event; numeric correctness is C04/C10/C11/C12's business, not this check's.",
     },
     "C09": {
-        "engine": "rrtk-mc c09-link-bfs + c09-read-values + c09-unobserved-bursts; thorough: harness/sr_terminals (stateright BFS cross-check)",
+        "engine": "rrtk-mc c09-link-bfs + c09-read-values + c09-unobserved-bursts + c09-two-pairs + c09-unobserved-sequences; thorough: harness/sr_terminals (stateright BFS cross-check)",
         "technique": "explicit-state BFS over all reachable link configurations of 2..6 (thorough 10) real terminals x all connect/disconnect actions; exhaustive presence x timestamp-order enumeration for the read clause; all periodic operation bursts (words of length <= 2 over 15 operations, 255..513 operations, thorough 2^16+-1) without intermediate reads against a link + slot model",
         "text": "Every reachable matching of n<=6 (10) terminals x every connect(i,j)/disconnect(i) is executed on real "
                 "terminals (state rebuilt by witness replay) and compared with the matching model; no panic, symmetric "
                 "links, exact post-conditions. Read clause: all 16 presence patterns x all weak timestamp orders x "
                 "linked/unlinked; 5400 long unobserved operation bursts. Complete for the stated bounds; link logic has no data dependence so small n is "
-                "representative. Plus twin / bystander runs: a second live object of the same kind used alternately must not change anything.",
+                "representative. Plus twin / bystander runs: a second live object of the same kind used alternately must not change anything. Plus every connect/disconnect sequence (no state merging) of length <= 8/6/4/3 (thorough 10/8/6/5) on 2/3/4/5 terminals under n+1 observation modes (nothing read before the end; only terminal k read after every step), the links decoded at the end compared with the matching model - bookkeeping that reads repair or create is only visible this way.",
         "note": "Trusted: rustc, the harness decoding of partners from state means (own states are distinct powers of two). "
                 "Bound: n<=6 quick, n<=10 thorough; values from a fixed dyadic alphabet.",
     },
